@@ -27,8 +27,36 @@ theorem growing_of_bucketIs {key : Bytes} {b0 : Bytes} {fs : FS}
     (h : BucketIs fs (bucketPath cfg cache key) b0) : GrowingAny cfg cache key b0 fs :=
   ⟨{}, 0, 0, by simpa using h⟩
 
+/-- The options a keyed commit of `data` hands to the index insertion: the caller's, with the
+integrity to record (the declared one, else the digest of the data) and the size (the declared
+one, else the byte count) filled in.  The one record a keyed write of `data` ever appends is
+`mkRec key (recordedOpts cfg o data) tm`. -/
+def recordedOpts (o : WriteOpts) (data : Bytes) : WriteOpts :=
+  { o with sri := some (o.sri.getD (Sri.compute cfg.H (o.algo.getD .sha256) data)), size := some (o.size.getD data.length) }
+
+/-- The precise invariant (`Growing` for the one record the write is going to append) implies the
+coarse one (some record for the key). -/
+theorem Growing.any {key : Bytes} {o : WriteOpts} {b0 : Bytes} {fs : FS}
+    (h : Growing cfg cache key o b0 fs) : GrowingAny cfg cache key b0 fs := by
+  obtain ⟨tm, k, hb, _⟩ := h
+  exact ⟨o, tm, k, hb⟩
+
 theorem bucketIs_of_get {fs fs' : FS} {bucket : Path} {b : Bytes} (h : BucketIs fs bucket b)
     (he : fs'.get bucket = fs.get bucket) : BucketIs fs' bucket b := h.frame he
+
+/-- A phase that never aims at the index area, viewed in a combined invariant whose bucket half
+`G` holds whenever the bucket still is the old bytes. -/
+theorem phase_wp_of {α : Type} {Post : α → FS → Prop} {p : Prog α} {fs : FS} (key : Bytes) (b0 : Bytes)
+    {G : FS → Prop} (hG : ∀ s, BucketIs s (bucketPath cfg cache key) b0 → G s)
+    (hb : BucketIs fs (bucketPath cfg cache key) b0)
+    (h1 : wpD env (ContentValid cfg cache) Post p fs)
+    (hav : AllCalls (Call.avoids (bucketPath cfg cache key)) p) :
+    wpD env (fun s => ContentValid cfg cache s ∧ G s)
+      (fun a s => (ContentValid cfg cache s ∧ Post a s) ∧ BucketIs s (bucketPath cfg cache key) b0) p fs := by
+  have h2 := AllCalls.wpD_frame hav env fs _ rfl
+  refine wpD_weakenQ ?_ (wpD_mono ?_ (wpD_and (wpD_withQ h1) h2))
+  · intro s ⟨hv, hg⟩; exact ⟨hv, hG s (hb.frame hg)⟩
+  · intro a s ⟨hp, hg⟩; exact ⟨hp, hb.frame hg⟩
 
 /-- A phase that never aims at the index area, viewed in the combined invariant. -/
 theorem phase_wp {α : Type} {Post : α → FS → Prop} {p : Prog α} {fs : FS} (key : Bytes) (b0 : Bytes)
@@ -36,37 +64,41 @@ theorem phase_wp {α : Type} {Post : α → FS → Prop} {p : Prog α} {fs : FS}
     (h1 : wpD env (ContentValid cfg cache) Post p fs)
     (hav : AllCalls (Call.avoids (bucketPath cfg cache key)) p) :
     wpD env (fun s => ContentValid cfg cache s ∧ GrowingAny cfg cache key b0 s)
-      (fun a s => (ContentValid cfg cache s ∧ Post a s) ∧ BucketIs s (bucketPath cfg cache key) b0) p fs := by
-  have h2 := AllCalls.wpD_frame hav env fs _ rfl
-  refine wpD_weakenQ ?_ (wpD_mono ?_ (wpD_and (wpD_withQ h1) h2))
-  · intro s ⟨hv, hg⟩; exact ⟨hv, growing_of_bucketIs cfg cache (hb.frame hg)⟩
-  · intro a s ⟨hp, hg⟩; exact ⟨hp, hb.frame hg⟩
+      (fun a s => (ContentValid cfg cache s ∧ Post a s) ∧ BucketIs s (bucketPath cfg cache key) b0) p fs :=
+  phase_wp_of cfg env cache key b0 (fun _ h => growing_of_bucketIs cfg cache h) hb h1 hav
 
 theorem avoids_bucket_of_areas {tops : List Bytes} {α : Type} {Ok : α → Prop} {p : Prog α}
     (key : Bytes) (h : AllCallsR (Call.inAreas cache tops) Ok p) (hn : dIndex ∉ tops) :
     AllCalls (Call.avoids (bucketPath cfg cache key)) p :=
   h.mono (fun c hc => hc.avoids (bucket_inIndex cfg cache key) hn) (fun _ _ => trivial)
 
-/-- **The whole keyed write.** -/
-theorem writeStream_keyed_wp (fl : Flavour) (key : Bytes) (o : WriteOpts) (chunks : List Bytes)
+/-- **The whole keyed write**, with the precise crash invariant: at every kill point and under
+every fault the store is valid and the key's bucket is the old bytes plus a prefix of the frame of
+the ONE record `mkRec key (recordedOpts cfg o chunks.flatten) tm` — the record a successful run
+appends whole (`BucketPost`) — with `tm` the caller's time or an answer of the clock. -/
+theorem writeStream_keyed_wp_rec (fl : Flavour) (key : Bytes) (o : WriteOpts) (chunks : List Bytes)
     (b0 : Bytes) {fs : FS} (hq : ContentValid cfg cache fs)
     (hb : BucketIs fs (bucketPath cfg cache key) b0) :
-    wpD env (fun s => ContentValid cfg cache s ∧ GrowingAny cfg cache key b0 s)
+    wpD env (fun s => ContentValid cfg cache s ∧
+        Growing cfg cache key (recordedOpts cfg o chunks.flatten) b0 s)
       (fun r s => StreamPost cfg cache (some key) o chunks r s ∧ BucketPost cfg cache key o chunks b0 r s)
       (writeStream cfg cache fl (some key) o chunks) fs := by
+  have hG : ∀ s, BucketIs s (bucketPath cfg cache key) b0 →
+      Growing cfg cache key (recordedOpts cfg o chunks.flatten) b0 s := fun _ h => growing_zero cfg cache h
   unfold writeStream
   simp only [bind_eq, pure_eq]
   apply wpD_bind
-  refine wpD_mono ?_ (phase_wp cfg env cache key b0 hb (wopen_wp cfg env cache fl (some key) o hq)
+  refine wpD_mono ?_ (phase_wp_of cfg env cache key b0 hG hb (wopen_wp cfg env cache fl (some key) o hq)
     (avoids_bucket_of_areas cfg cache key (wopen_areas cfg fl cache (some key) o) (by decide)))
   intro r fs1 ⟨⟨hv1, hp⟩, hb1⟩
   have done_err : ∀ (e : Err) (fsx : FS), ContentValid cfg cache fsx →
       BucketIs fsx (bucketPath cfg cache key) b0 →
-      wpD env (fun s => ContentValid cfg cache s ∧ GrowingAny cfg cache key b0 s)
+      wpD env (fun s => ContentValid cfg cache s ∧
+          Growing cfg cache key (recordedOpts cfg o chunks.flatten) b0 s)
         (fun r s => StreamPost cfg cache (some key) o chunks r s ∧ BucketPost cfg cache key o chunks b0 r s)
         (.done (Except.error e)) fsx := by
     intro e fsx hvx hbx
-    exact ⟨⟨hvx, growing_of_bucketIs cfg cache hbx⟩, (fun s h => (by cases h)), (fun s h => (by cases h))⟩
+    exact ⟨⟨hvx, hG _ hbx⟩, (fun s h => (by cases h)), (fun s h => (by cases h))⟩
   split
   · exact done_err _ _ hv1 hb1
   · rename_i w
@@ -74,14 +106,14 @@ theorem writeStream_keyed_wp (fl : Flavour) (key : Bytes) (o : WriteOpts) (chunk
     apply wpD_bind
     have hwa := wwriteAll_areas w chunks hi.ok
     rw [hc] at hwa
-    refine wpD_mono ?_ (phase_wp cfg env cache key b0 hb1
+    refine wpD_mono ?_ (phase_wp_of cfg env cache key b0 hG hb1
       (wwriteAll_wp cfg env cache w chunks hc hv1 hi) (avoids_bucket_of_areas cfg cache key hwa (by decide)))
     intro r2 fs2 ⟨⟨hv2, hp2⟩, hb2⟩
     split
     · apply wpD_bind
       have hda := dropTmp_areas w.cache w.tmp hi.ok.inArea
       rw [hc] at hda
-      refine wpD_mono ?_ (phase_wp cfg env cache key b0 hb2 (dropTmp_wp cfg env cache _ hv2)
+      refine wpD_mono ?_ (phase_wp_of cfg env cache key b0 hG hb2 (dropTmp_wp cfg env cache _ hv2)
         (avoids_bucket_of_areas cfg cache key hda (by decide)))
       intro _ fs3 ⟨⟨hv3, _⟩, hb3⟩
       exact done_err _ _ hv3 hb3
@@ -117,7 +149,7 @@ theorem writeStream_keyed_wp (fl : Flavour) (key : Bytes) (o : WriteOpts) (chunk
             refine wpD_done cfg env cache hvx ?_
             intro a b h; cases h
             exact ⟨hws, hchk, cpath, hcp, existsFollow_get hne hex⟩
-      refine wpD_mono ?_ (phase_wp cfg env cache key b0 hb2 hcheck
+      refine wpD_mono ?_ (phase_wp_of cfg env cache key b0 hG hb2 hcheck
         (avoids_bucket_of_areas cfg cache key hca (by decide)))
       intro r3 fs3 ⟨⟨hv3, hp3⟩, hb3⟩
       split
@@ -125,6 +157,13 @@ theorem writeStream_keyed_wp (fl : Flavour) (key : Bytes) (o : WriteOpts) (chunk
       · rename_i wsri recorded
         obtain ⟨hws, hchk, cpath, hcp, hsome⟩ := hp3 wsri recorded rfl
         have hck := commitChecks_ok hchk
+        have hdata : w'.hashed = chunks.flatten := by rw [hh, hh0]; rfl
+        have hwritten : w'.written = chunks.flatten.length := by rw [hw, hw0]; simp
+        have hopts : w'.opts = o := ho'.trans ho
+        have halgo : w'.algo = o.algo.getD .sha256 := ha'.trans ha
+        have hrec : ({ w'.opts with sri := some recorded, size := some (w'.opts.size.getD w'.written) } : WriteOpts) =
+            recordedOpts cfg o chunks.flatten := by
+          rw [hck.1, hws, hdata, halgo, hwritten, hopts]; rfl
         unfold wcommitIndex
         rw [hk', hc']
         dsimp only
@@ -140,13 +179,9 @@ theorem writeStream_keyed_wp (fl : Flavour) (key : Bytes) (o : WriteOpts) (chunk
           { w'.opts with sri := some recorded, size := some (w'.opts.size.getD w'.written) } b0 hb3
         refine wpD_weakenQ ?_ (wpD_mono ?_ (wpD_and (wpD_and h1 h2) h3))
         · intro s ⟨⟨hv, _⟩, hg⟩
-          obtain ⟨tm, k, hgk⟩ := hg
-          exact ⟨hv, _, tm, k, hgk⟩
+          rw [hrec] at hg
+          exact ⟨hv, hg⟩
         · intro r4 fs4 ⟨⟨hr4, hg4⟩, hb4⟩
-          have hdata : w'.hashed = chunks.flatten := by rw [hh, hh0]; rfl
-          have hwritten : w'.written = chunks.flatten.length := by rw [hw, hw0]; simp
-          have hopts : w'.opts = o := ho'.trans ho
-          have halgo : w'.algo = o.algo.getD .sha256 := ha'.trans ha
           constructor
           · intro sri hsri
             have e := hr4 sri hsri
@@ -165,5 +200,15 @@ theorem writeStream_keyed_wp (fl : Flavour) (key : Bytes) (o : WriteOpts) (chunk
             · intro t ht; exact htm t (by rw [hopts]; exact ht)
             · rw [hget, hopts, hwritten]
             · intro hb; exact hle (fun t ht => hb t (by rw [hopts] at ht; exact ht))
+
+/-- **The whole keyed write** (the coarse invariant: a prefix of some record for the key). -/
+theorem writeStream_keyed_wp (fl : Flavour) (key : Bytes) (o : WriteOpts) (chunks : List Bytes)
+    (b0 : Bytes) {fs : FS} (hq : ContentValid cfg cache fs)
+    (hb : BucketIs fs (bucketPath cfg cache key) b0) :
+    wpD env (fun s => ContentValid cfg cache s ∧ GrowingAny cfg cache key b0 s)
+      (fun r s => StreamPost cfg cache (some key) o chunks r s ∧ BucketPost cfg cache key o chunks b0 r s)
+      (writeStream cfg cache fl (some key) o chunks) fs :=
+  wpD_weakenQ (fun _ h => ⟨h.1, h.2.any cfg cache⟩)
+    (writeStream_keyed_wp_rec cfg env cache fl key o chunks b0 hq hb)
 
 end Cacache
